@@ -1,7 +1,7 @@
 (* Correspondence driver for C16: each case carries the inputs and the outputs observed on
    /repo/common/time.go; [mismatches] lists the cases on which the model disagrees. *)
 From Coq Require Import ZArith List Bool.
-From DV Require Import Model.Time Gen.Consts Corr.CorrBase.
+From DV Require Import Model.Time Model.TimeFloat Gen.Consts Corr.CorrBase.
 Import ListNotations.
 Open Scope Z_scope.
 
@@ -13,8 +13,10 @@ Definition ok (c : tcase) : bool :=
   match c with
   | TOR p g r out => time_of_round time_buffer_bits p g r =? out
   | NR now p g o1 o2 cur =>
-      let '(n, t) := next_round now p g in
-      (n =? o1) && (t =? o2) && (current_round now p g =? cur)
+      (* the code divides in binary64: the float model is what is compared with the implementation;
+         C16_float_division proves it equal to the integer model on the property's domain *)
+      let '(n, t) := next_round_f now p g in
+      (n =? o1) && (t =? o2) && (current_round_f now p g =? cur)
   end.
 
 Definition mismatches (cs : list tcase) : list Z := mism_from ok 0 cs.
